@@ -1244,10 +1244,16 @@ def split_threads(evs):
         groups = [g for g in groups if len(g) >= 2]
         out.append({"op": "replicas", "groups": groups, "mode": e.get("mode", ""), "ci": e.get("ci"), "ret": e["ret"]})
         if "xkey" in e:         # the same history run in different processes / after different predecessors
-            across.setdefault(e["xkey"], []).append((per_tag(e["evs"][e["xinst"]]), e.get("ci")))
+            xe = e["evs"][e["xinst"]]
+            allok = all(x.get("rc") == "ok" for x in xe if x.get("op") == "decode")
+            across.setdefault(e["xkey"], []).append((per_tag(xe), e.get("ci"), e.get("mode"), allok))
     for k, lst in across.items():
+        # delivery through ONE reader is comparable with one reader per picture only if every call succeeded (after a
+        # rejected call a stream reader stays at the rejected data, by design)
+        if not all(a for _, _, _, a in lst):
+            lst = [x for x in lst if x[2] != "alone-one-reader"]
         if len(lst) >= 2:
-            out.append({"op": "replicas", "groups": [[d for d, _ in lst]], "mode": "across-processes", "ci": lst[-1][1], "ret": "ok"})
+            out.append({"op": "replicas", "groups": [[d for d, _, _, _ in lst]], "mode": "across-processes", "ci": lst[-1][1], "ret": "ok"})
     return out
 
 
